@@ -380,4 +380,8 @@ impl<H: Host> Emulator<H> {
     pub fn verif_paging(&self) -> (u8, bool, u8) {
         self.controller.verif_paging()
     }
+
+    pub fn verif_set_paging(&mut self, value: u8) {
+        self.controller.verif_set_paging(value);
+    }
 }
